@@ -1,5 +1,8 @@
 (* Encoded entry point of M-ALLOC for the extracted model runner (definitions only).
-   case:  alloc <unb> <drop> <init> <max> <sso> <copyw> <sig> <tylen> <nargs> ty... <nops> op...
+   case:  alloc <mapcp> <unb> <drop> <init> <max> <sso> <copyw> <sig> <tylen> <nargs> ty... <nops> op...
+     mapcp       the code variant of the map codecs (AllocModel map_copies): 0 = elements are encoded in
+                 place (the repaired code), 1 = every element is converted to a temporary std::pair<Key, T>
+                 (pinned); written by props/c11.py from the T-src fact c11_map_elems_in_place
      unb, drop   queue type of the frontend: Unbounded* / *Dropping (0/1)
      init, max   initial_queue_capacity, unbounded_queue_max_capacity
      sso         inline capacity of the standard library's std::string (a fs::path temporary longer
@@ -98,15 +101,15 @@ Fixpoint parse_ops (fuel : nat) (ts : list ty) (l : list N) : option (list top) 
     end
   end.
 
-Fixpoint run_obs (sso copyw : N) (cf : cfg) (s : tstate) (ops : list top) : list N :=
+Fixpoint run_obs (mc : bool) (sso copyw : N) (cf : cfg) (s : tstate) (ops : list top) : list N :=
   match ops with
   | [] => []
-  | o :: ops' => let (s1, out) := t_step cf s o in obs sso copyw s1 out ++ run_obs sso copyw cf s1 ops'
+  | o :: ops' => let (s1, out) := t_step mc cf s o in obs sso copyw s1 out ++ run_obs mc sso copyw cf s1 ops'
   end.
 
 Definition alloc_run_enc (l : list N) : list N :=
   match l with
-  | unb :: drop :: init :: mx :: sso :: copyw :: _sig :: tylen :: nargs :: r =>
+  | mapcp :: unb :: drop :: init :: mx :: sso :: copyw :: _sig :: tylen :: nargs :: r =>
     match parse_tys (S (N.to_nat tylen)) (N.to_nat nargs) r with
     | None => MALFORMED
     | Some (ts, r1) =>
@@ -116,7 +119,7 @@ Definition alloc_run_enc (l : list N) : list N :=
         | None => MALFORMED
         | Some ops =>
           let cf := {| c_unbounded := negb (unb =? 0); c_dropping := negb (drop =? 0); c_init := init; c_max := mx |} in
-          run_obs sso copyw cf (t_init cf) ops
+          run_obs (negb (mapcp =? 0)) sso copyw cf (t_init cf) ops
         end
       | [] => MALFORMED
       end
